@@ -12,4 +12,5 @@ mkdir -p evidence replays
 T="${VERIF_SCRATCH_BASE:-/var/tmp}/rqverif.setup.$$"
 trap 'rm -rf "$T"' EXIT
 cargo run --offline --release --manifest-path stubcheck/Cargo.toml --target-dir "$T" 2>&1 | tail -1
+python3-vt tools/validate_e2.py
 echo setup ok
